@@ -78,7 +78,9 @@ def run(rep, facts, tier):
         P = Pos(b)
         nxt = [(nb, 'term') for nb, t in b.calls() if callee_res(t).endswith('::next')]
         rms = [(rb, 'term') for rb, t in b.calls() if callee_res(t).endswith('::remove') and has_field(og.of_operand(t['args'][0], rb, 'term'), 'datasamples')]
-        some = [(s_, t_) for s_, t_, cond, lab in switch_edges(b, fx, og) if lab == 'Some' and term_has(cond, lambda x: x[0] == 'call' and x[1].endswith('::next')) and not has_field(cond, 'datasamples')]
+        # the Some edge of the key iterator's own next() (not of a lookup that merely uses the iterated key)
+        some = [(s_, t_) for s_, t_, cond, lab in switch_edges(b, fx, og) if lab == 'Some' and cond[0] == 'discr' and cond[1][0] == 'call' and cond[1][1].endswith('::next')
+                and not has_field(cond, 'datasamples')]
         ok2 = bool(some) and bool(rms)
         for s_, t_ in some:
             for nx in nxt:
@@ -429,6 +431,7 @@ def rule_08_7(rep, fx):
     rule_sort_before_limit(rep, fx, 'R08.9')
     rule_08_11(rep, fx)
     rule_08_12(rep, fx)
+    rule_08_13(rep, fx)
 
 
 def rule_08_8(rep, fx):
@@ -666,3 +669,53 @@ def rule_08_12(rep, fx):
         ok = ok and not skips
     rep.check(ok, 'R08.12', 'next_key/strictly-greater', 'range((Excluded(key), Unbounded)).next()',
               'next_key does not return the smallest instance strictly greater than the given key (%s): a next-instance sweep skips an instance, or repeats one' % why, b.where())
+
+
+def _key_term(t):
+    while isinstance(t, tuple) and t and t[0] in ('ref', 'deref', 'copy', 'move') and len(t) > 1 and isinstance(t[1], tuple):
+        t = t[1]
+    return t
+
+
+def rule_08_13(rep, fx):
+    """The cache keeps each sample twice: the sample itself in `datasamples`, its timestamp in the `instance_samples` set of its instance. History depth is enforced on
+    the size of the set, so the two must describe the same samples."""
+    rep.rule('R08.13', 'the two stores stay in step: in DataSampleCache every datasamples.remove(ts) is paired with instance_samples.remove(ts) of the same timestamp on every path '
+                       '(the instance being absent is the only excuse), and add_sample inserts the timestamp into both; otherwise taken samples keep counting against the history '
+                       'depth and an untaken sample is evicted although the depth is not exceeded')
+    n = 0
+    for b in fx.bodies:
+        if not b.key.startswith(DSC) and not (b.kind == 'closure' and DSC.rstrip(':') in b.key):
+            continue
+        og = Origins(b, summaries=False)
+        rm_d = [(bb, _key_term(resolve_captures(fx, b, og.of_operand(t['args'][1], bb, 'term'), summaries=False))) for bb, t in b.calls()
+                if callee_res(t).endswith('::remove') and has_field(resolve_captures(fx, b, og.of_operand(t['args'][0], bb, 'term'), summaries=False), 'datasamples')]
+        if not rm_d:
+            continue
+        rep.analysed(b)
+        rm_i = [(bb, _key_term(resolve_captures(fx, b, og.of_operand(t['args'][1], bb, 'term'), summaries=False))) for bb, t in b.calls()
+                if callee_res(t).endswith('::remove') and has_field(resolve_captures(fx, b, og.of_operand(t['args'][0], bb, 'term'), summaries=False), 'instance_samples')]
+        P = Pos(b)
+        edges = list(switch_edges(b, fx, og))
+        none_edges = [(s_, t_) for s_, t_, cond, lab in edges if lab == 'None' and term_has(cond, lambda x: x[0] == 'call' and x[1].rsplit('::', 1)[-1] in ('get', 'get_mut')) and
+                      has_field(cond, 'instance_map')]
+        nxt = [(nb, 'term') for nb, t in b.calls() if callee_res(t).endswith('::next')]
+        ends = [(r, 'term') for r in b.return_blocks()] + nxt
+        for bb, k in rm_d:
+            n += 1
+            partners = [(ib, 'term') for ib, ik in rm_i if ik == k]
+            after = bool(partners) and all(P.every_path_passes((bb, 'term'), e, via_pos=partners, via_edges=none_edges) for e in ends if P.can_reach((bb, 'term'), e))
+            # or the partner comes first in the same iteration: every path from the start of the iteration (entry / after next) to the removal passes it
+            starts = [(0, 0)] + [(nb, 'term') for nb, _k in nxt]
+            before = bool(partners) and all(P.every_path_passes(None, (bb, 'term'), via_pos=partners, via_edges=none_edges, from_entry=True) for _ in [0]) and \
+                all(not P.can_reach(st_, (bb, 'term'), avoid_pos=partners, avoid_edges=none_edges) for st_ in starts[1:])
+            rep.check(after or before, 'R08.13', '%s/remove#%d' % (b.key.split('DataSampleCache::')[-1], n), 'paired with instance_samples.remove(same timestamp)',
+                      '%s removes a sample from `datasamples` without removing its timestamp from the instance\'s `instance_samples` on every path: the stale entry keeps counting '
+                      'against the history depth (and is never freed with KeepAll)' % b.key.split('DataSampleCache::')[-1], b.where(bb))
+    rep.floor('R08.13', n, 3, 'removals from DataSampleCache.datasamples (two takes and the eviction)')
+    ad = fx.find(DSC + 'add_sample')
+    oga = Origins(ad, summaries=False)
+    ins_d = [_key_term(oga.of_operand(t['args'][1], bb, 'term')) for bb, t in ad.calls() if callee_res(t).endswith('::insert') and has_field(oga.of_operand(t['args'][0], bb, 'term'), 'datasamples')]
+    ins_i = [_key_term(oga.of_operand(t['args'][1], bb, 'term')) for bb, t in ad.calls() if callee_res(t).endswith('::insert') and has_field(oga.of_operand(t['args'][0], bb, 'term'), 'instance_samples')]
+    rep.check(len(ins_d) == 1 and ins_d == ins_i, 'R08.13', 'add_sample/inserts-both', 'the receive timestamp goes into datasamples and into instance_samples',
+              'add_sample does not insert the same timestamp into datasamples and into the instance\'s instance_samples (%s vs %s)' % ([term_str(x)[:40] for x in ins_d], [term_str(x)[:40] for x in ins_i]), ad.where())
